@@ -116,16 +116,39 @@ def signature(res):
 
 
 def stable(hc_factory, vals, hkl, wl, kind):
-    """is the implementation's outcome invariant under input perturbations at the 1e-7 level?  (numerically singular
-    requests — 0/0 by rounding noise, acos at +-1 — are not behavioural differences and are not compared)"""
+    """is the implementation's outcome invariant under input perturbations just below and just above the solver's own
+    1e-7 rad thresholds?  (numerically singular requests — 0/0 by rounding noise, acos at +-1, a value sitting exactly on an
+    is_small threshold — are decided by rounding noise; a disagreement there is not a behavioural difference)"""
     base = None
-    for eps in (0.0, 1.3e-7, -1.7e-7, 2.9e-8):
+    for eps in (0.0, 1.3e-7, -1.7e-7, 3.1e-5, -2.3e-5):
         v2 = {k: (v if v is True else v + eps) for k, v in vals.items()}
         h2 = tuple(x * (1 + eps * 0.1) for x in hkl)
-        sig = signature(S.run_impl(kind, hc_factory(v2), h2, wl))
+        res = S.run_impl(kind, hc_factory(v2), h2, wl)
         if base is None:
-            base = sig
-        elif sig != base:
+            base = res
+        elif signature(res) != signature(base):
+            return False
+        elif res[0] == "ok" and not S.same_solution_sets(res[1], base[1], tol=1e-2):
+            return False    # a solution that jumps under a 1e-7 perturbation is an atan2(0, 0)-type artefact
+    return True
+
+
+def isolated(ub, vals, hkl, wl, kind):
+    """does the disagreement disappear as soon as the request is moved off the exact special point (just beyond the solver's
+    1e-7 rad thresholds)?  Then it is a threshold decision flipped by rounding noise at an isolated point, not a behavioural
+    difference: a wrong model or a changed implementation also disagrees next to the point."""
+    from diffcalc.hkl.calc import HklCalculation
+    from diffcalc.hkl.constraints import Constraints
+    for eps in (3.1e-5, -2.3e-5, 1.1e-4):
+        v2 = {k: (v if v is True else v + eps * (1 + 0.37 * i)) for i, (k, v) in enumerate(vals.items())}
+        h2 = tuple(x * (1 + eps * 0.1) + eps * 0.01 for x in hkl)
+        c = Constraints(v2)
+        e = S.run_impl(kind, HklCalculation(ub, c), h2, wl)
+        m = S.parse_answer(drive([S.gp_line(kind, ub, c, h2, wl)])[0])
+        if e[0] == "ok" and m[0] == "ok":
+            if not S.same_solution_sets(e[1], m[1], tol=1e-3):
+                return False
+        elif e[0] != m[0]:
             return False
     return True
 
@@ -154,6 +177,9 @@ def correspondence_stream(ctx, name, requests, kind):
         if ok:
             continue
         if not stable(lambda v: HklCalculation(ub, Constraints(v)), vals, hkl, wl, kind):
+            unstable += 1
+            continue
+        if isolated(ub, vals, hkl, wl, kind):
             unstable += 1
             continue
         dis += 1
